@@ -3,11 +3,13 @@
 void registerBase64(std::map<std::string, vh::Op>& ops);
 void registerMime(std::map<std::string, vh::Op>& ops);
 void registerNet(std::map<std::string, vh::Op>& ops);
+void registerHeaders(std::map<std::string, vh::Op>& ops);
 int main()
 {
     std::map<std::string, vh::Op> ops;
     registerBase64(ops);
     registerMime(ops);
     registerNet(ops);
+    registerHeaders(ops);
     return vh::runLoop(ops);
 }
